@@ -114,11 +114,13 @@ package grpc
 
 // Dialling: TLS or plaintext as configured, the configured dial timeout (1 s by default), the configured authority.
 //@ func MakeGRPCConnect
-//@ props C20
+//@ props C20 C19
 //@ modifies nothing
 //@ at call context.WithTimeout assert [configured-dial-timeout] arg(a1) == ite(dialOptions.Timeout != 0, dialOptions.Timeout, 1000000000)
 //@ at call grpc.WithAuthority assert [configured-authority] arg(a0) == dialOptions.Authority && dialOptions.Authority != ""
 //@ at call grpc.WithInsecure assert [plaintext-only-without-tls] !isTLS
 //@ at call grpc.WithTransportCredentials assert [tls-when-asked] isTLS
 //@ at call grpc.DialContext assert [the-given-target] arg(a1) == target0
+//@ at call grpc.DialContext assert [credentials-user-agent-and-maybe-authority-nothing-else] len(arg(a2)) == 2 + ite(dialOptions.Authority != "", 1, 0)
+//@ ensures [the-dial-does-not-wait-for-the-target] calls(grpc.WithBlock) == 0
 //@ ensures conn == result_of(grpc.DialContext, 0) && err == result_of(grpc.DialContext, 1)
